@@ -27,6 +27,10 @@ RULE = ("generated forests: 1-8 units (versions 2-5), depth <= 5, arity <= 5, <=
 
 Q = ("entry (|D| [D offset] [D label] [D ?haschildren] [D parent offset] [D unit offset] [D attribute label] "
      "[D attribute form] [D child offset] [D pos] [D !haschildren] [D attribute pos])")
+# the raw view is still the raw view after a step of navigation: what `parent`, `child` and `unit root` yield
+# lists its attributes and children as stored (nothing integrated, no import inlined)
+Q2 = ("entry (|D| [D offset] [D parent attribute label] [D parent child offset] [D child (pos == 0) attribute label] "
+      "[D child (pos == 0) parent offset] [D unit root child offset] [D parent] [D child (pos == 0)])")
 
 
 def depth_of(d):
@@ -105,6 +109,30 @@ def check_forest(drv, ev, f, data, labels, via_word):
                     if label["e"][0]["d"] != "DW_TAG_" and not label["e"][0]["d"].startswith("DW_TAG"):
                         bad = "label of a DIE is not a DW_TAG_ constant: domain %r" % label["e"][0]["d"]
                         break
+            if not bad:
+                r2 = drv.run(pre + Q2, tok, limit=20000, steps=50000000)
+                if "error" in r2 or len(r2.get("res", [])) != len(exp):
+                    bad = "navigation query failed: %r (%d results for %d DIEs)" % (r2.get("error"), len(r2.get("res", [])), len(exp))
+                else:
+                    ev.label("navigation-stays-raw")
+                    for row, d in zip(r2["res"], exp):
+                        off, pal, pch, cal, cpo, urc, pv, cv = row[-8:]
+                        par, kid = d.parent, (d.children[0] if d.children else None)
+                        want = {"parent attribute": [a.name for a in par.attrs] if par else [], "parent child": [c.offset for c in par.children] if par else [],
+                                "child attribute": [a.name for a in kid.attrs] if kid else [], "child parent": [d.offset] if kid else [],
+                                "unit root child": [c.offset for c in d.unit.root.children]}
+                        got = {"parent attribute": ints(pal), "parent child": ints(pch), "child attribute": ints(cal), "child parent": ints(cpo),
+                               "unit root child": ints(urc)}
+                        if got != want:
+                            k = [k for k in want if got[k] != want[k]][0]
+                            bad = "raw DIE %#x: `%s` lists %r, stored %r" % (d.offset, k, got[k][:12], want[k][:12])
+                            break
+                        for what, seq in (("parent", pv), ("child", cv)):
+                            if any(not e.get("raw") or e.get("imp") for e in seq["e"]):
+                                bad = "raw DIE %#x: `%s` yields a DIE that is not raw: %r" % (d.offset, what, seq["e"][:1])
+                                break
+                        if bad:
+                            break
             # per-unit entry: `raw unit entry` must list the same DIEs, positions restarting per unit
             if not bad:
                 rue = drv.run(pre + "unit (|U| [U entry offset] [U entry pos] [U root offset])", tok, limit=200)
